@@ -63,6 +63,7 @@ type answer struct {
 	same    bool // redir: the Location is the request's own URL
 	cut     bool // the body read fails after a few bytes
 	timeout bool
+	big     bool // the body is about 100 kB: a legitimate size (an SCT's extensions alone may take 65535 octets, 87 kB in base64)
 	viaGET  bool // answer to the GET that a redirect turned the POST into: never a success
 }
 
@@ -89,6 +90,8 @@ var menu = []answer{
 	{name: "500", status: 500, body: "text"},
 	{name: "301", status: 301, redir: true, body: "text"},
 	{name: "303same", status: 303, redir: true, same: true, body: "text"}, // redirect to the very URL that was posted to (cookie-bounce front ends)
+	{name: "200big", status: 200, body: "ok", big: true},   // a parsable 200 is a parsable 200 at any size the protocol allows
+	{name: "400big", status: 400, body: "text", big: true}, // ... and an error carries the body it came with
 	{name: "neterr", neterr: true},
 	{name: "nettimeout", neterr: true, timeout: true}, // a transport-level timeout (errors.Is(err, context.DeadlineExceeded)) while the caller's context is live
 }
@@ -143,6 +146,38 @@ func callerOf(req *http.Request, body []byte) string {
 		return string(r.Chain[0])
 	}
 	return "?"
+}
+
+var okSCTBig = func() string {
+	ds, _ := tls.Marshal(ct.DigitallySigned{Algorithm: tls.SignatureAndHashAlgorithm{Hash: tls.SHA256, Signature: tls.ECDSA}, Signature: []byte{1, 2, 3}})
+	b, _ := json.Marshal(ct.AddChainResponse{SCTVersion: ct.V1, ID: bytes.Repeat([]byte{7}, 32), Timestamp: 1234, Extensions: base64.StdEncoding.EncodeToString(bytes.Repeat([]byte{0xe7}, 65535)), Signature: ds})
+	return string(b)
+}()
+
+// bodyFor is the body the server sends with answer a to caller c.
+func bodyFor(a *answer, api, c string) string {
+	b := "some text"
+	if a.big {
+		b = strings.Repeat("some text ", 10000)
+	}
+	switch a.body {
+	case "ok":
+		switch {
+		case api == "logclient" && a.big:
+			b = okSCTBig
+		case api == "logclient":
+			b = okSCT
+		case a.big:
+			b = `{"value":"` + c + `","padding":"` + strings.Repeat("p", 100000) + `"}`
+		default:
+			b = `{"value":"` + c + `"}`
+		}
+	case "badjson":
+		b = `{"value": tru`
+	case "empty":
+		b = ""
+	}
+	return b
 }
 
 var okSCT = func() string {
@@ -214,19 +249,7 @@ func (g *gatedRT) RoundTrip(req *http.Request) (*http.Response, error) {
 	if a.neterr {
 		return nil, errors.New("connection reset by peer")
 	}
-	b := "some text"
-	switch a.body {
-	case "ok":
-		if g.api == "logclient" {
-			b = okSCT
-		} else {
-			b = `{"value":"` + c + `"}`
-		}
-	case "badjson":
-		b = `{"value": tru`
-	case "empty":
-		b = ""
-	}
+	b := bodyFor(&a, g.api, c)
 	if a.redir {
 		if a.same {
 			h.Set("Location", req.URL.String())
@@ -550,6 +573,24 @@ func oracle(sc scenario, x *gate.Exec, rec *recorder, callers []*caller) {
 					if lastAns.askAt > 0 && e.t < lastAns.askAt {
 						x.Violation("retry-before-retry-after", "caller %s: answer %s at %v asked to wait until %v but the next request went out at %v", c.name, a.name, lastAns.t, lastAns.askAt, e.t)
 					}
+					// the pacing is the client's, not the call's: a Retry-After that the server gave to another submission
+					// of this client strictly before this caller's last answer (so the shared back-off already holds it:
+					// handling an answer takes no virtual time) binds this retry too, whatever status it follows
+					for _, o := range evs {
+						if o.kind != "ans" || o.caller == c.name || o.askAt == 0 || o.ans.cut || o.ans.viaGET || o.method != http.MethodPost ||
+							(o.ans.status != 503 && o.ans.status != 429) || o.t >= lastAns.t || e.t >= o.askAt {
+							continue
+						}
+						live := true
+						for _, oc := range callers {
+							if oc.name == o.caller && oc.endAt >= 0 && oc.endAt <= o.t {
+								live = false // that submission had already been abandoned; its answer was never looked at
+							}
+						}
+						if live {
+							x.Violation("retry-before-shared-retry-after", "caller %s: the client was asked at %v (answer %s to caller %s) to wait until %v, but this caller's retry after %s went out at %v", c.name, o.t, o.ans.name, o.caller, o.askAt, a.name, e.t)
+						}
+					}
 					// upper bound: the 128 s cap (+ jitter) unless some answer seen by this client asked for more
 					limit := cap128
 					for _, o := range evs {
@@ -614,7 +655,7 @@ func oracle(sc scenario, x *gate.Exec, rec *recorder, callers []*caller) {
 			switch {
 			case final && lastAns.t == ret.t && (!ended || c.endAt > lastAns.t || !ctxErr):
 				// ended by a non-retryable status: must carry status and body
-				if !isRsp || re.StatusCode != lastAns.ans.status || string(re.Body) != "some text" {
+				if !isRsp || re.StatusCode != lastAns.ans.status || string(re.Body) != bodyFor(lastAns.ans, sc.API, c.name) {
 					x.Violation("final-status-error-shape", "caller %s: answer %s must be returned as RspError{status, body}; got %T %v", c.name, lastAns.ans.name, ret.err, ret.err)
 				}
 			case ended:
@@ -704,7 +745,7 @@ func TestCheck(t *testing.T) {
 		scenario{Name: "3 callers sharing a LogClient, prompt server, network keeps failing", API: "logclient", Callers: 3, Ctx: []string{"none", "none", "none"}, MaxBad: kb - 2, Bound: bb - 1, Default: "neterr", Prompt: true, Seed: 3},
 		scenario{Name: "1 caller, json, server keeps answering 503 with Retry-After: 0", API: "json", Callers: 1, Ctx: []string{"cancel"}, MaxBad: kb, Bound: bb, Default: "503ra0"},
 		scenario{Name: "3 callers sharing a client, server keeps answering 429", API: "json", Callers: 3, Ctx: []string{"none", "none", "none"}, MaxBad: kb - 2, Bound: bb - 1, Default: "429"})
-	r.Rule("for each scenario, every choice vector of total deviation cost <= bound (a deviation = answering a pending request other than the canonically first, any answer other than a parsable 200 out of a 24-answer menu, a slow server, a cancellation at one of 4 instants); executions run to completion under virtual time. distinct_nontrivial = distinct observed outcomes (per-caller answer sequence and result)")
+	r.Rule("for each scenario, every choice vector of total deviation cost <= bound (a deviation = answering a pending request other than the canonically first, any answer other than a parsable 200 out of a 26-answer menu, a slow server, a cancellation at one of 4 instants); executions run to completion under virtual time. distinct_nontrivial = distinct observed outcomes (per-caller answer sequence and result)")
 	r.Assume("client jitter (math/rand, 0..249 ms) is not owned: oracles use only the bounds the property states; requests arriving within 300 ms of each other are presented together",
 		"interleavings are explored at the granularity of HTTP round trips; lock-level interleavings inside the shared backoff are covered by the free-running race pass")
 	var summary []map[string]any
